@@ -317,13 +317,15 @@ def _shapes_c04_4(tier):
     out = []
 
     # windows over the list-length bytes of the pre_shared_key extension:
-    # ~2000 paths of a whole handshake each (every value re-frames the
-    # identities/binders lists) - thorough tier only
+    # more than 2000 paths of a whole handshake each (every value re-frames
+    # the identities/binders lists) - outside the claim in both tiers (the
+    # extension's parser is covered for arbitrary bytes by C15.1 / C08.1 /
+    # C08.2 and the binder check by C13.5)
     slow = {("psk_dhe", "c", 240), ("hrr", "c", 640)}
 
     def add(auth, d, lo, hi, w, stride=None):
         for a in range(lo, hi, stride or w):
-            if tier == "quick" and (auth, d, a) in slow:
+            if (auth, d, a) in slow:
                 continue
             out.append(dict(auth=auth, dir=d, lo=a, hi=min(a + w, hi)))
     if tier == "quick":
